@@ -54,12 +54,8 @@ func dischargeNE(c *Ctx, p *core.Prog, o *eng.NEObligation) (bool, string) {
 				}
 			}
 			// the function value must not escape (be called through a variable)
-			if refs := fn.Referrers(); refs != nil {
-				for _, r := range *refs {
-					if _, isCall := r.(ssa.CallInstruction); !isCall {
-						okAll = false
-					}
-				}
+			if _, esc := eng.CallSitesOf(fn); esc {
+				okAll = false
 			}
 			if n > 0 && okAll {
 				return true, fmt.Sprintf("parameter of an unexported function: all %d call sites pass a value of length >= %d (guard or construction at the call)", n, o.Need)
